@@ -148,7 +148,11 @@ ThrCallOK(c) ==
 PthrOK(c) == /\ \A i \in 1..Len(c.calls) : ThrCallOK(c.calls[i])
              /\ \A i, j \in 1..Len(c.calls) : i # j => c.calls[i].ser # c.calls[j].ser
 
-CaseOK(c) == CASE c.k = "pthr" -> PthrOK(c) [] c.k = "helper" -> HelperOK(c) [] c.k = "auth" -> AuthOK(c) [] c.k = "otree" -> OTreeOK(c) [] c.k = "pcall" -> PCallOK(c) [] c.k = "build" -> BuildOK(c) [] c.k = "edit" -> EditOK(c) [] c.k = "syn" -> SynOK(c) [] c.k = "dem" -> DemOK(c) [] c.k = "chunk" -> ChunkOK(c)
+\* ---- the same through a real connection and socket (C11): what a DBusConnection dispatched for a stream written in some
+\* chunking (first chunk in the same write as the BEGIN line when libdbus is the server), and whether it gave up ----
+TChunkOK(c) == LET fr == FrameL(c.b, LUN) IN c.out = fr.out /\ c.disc = B2I(fr.corrupt)
+
+CaseOK(c) == CASE c.k = "tchunk" -> TChunkOK(c) [] c.k = "pthr" -> PthrOK(c) [] c.k = "helper" -> HelperOK(c) [] c.k = "auth" -> AuthOK(c) [] c.k = "otree" -> OTreeOK(c) [] c.k = "pcall" -> PCallOK(c) [] c.k = "build" -> BuildOK(c) [] c.k = "edit" -> EditOK(c) [] c.k = "syn" -> SynOK(c) [] c.k = "dem" -> DemOK(c) [] c.k = "chunk" -> ChunkOK(c)
 BadCases == {i \in 1..Len(Log) : ~CaseOK(Log[i])}
 \* evaluated in Next (worker thread: honours -Xss), not in Init (main thread)
 Init == x = 0
